@@ -45,6 +45,13 @@ def items(tier, seed):
                 if tier == "quick" and max(part) >= 2:
                     n = 1     # three mutually different secrets: one symbolic character each in the quick tier
                 out.append(Item("C08", "value_history", dict(part=list(part), enc=list(e), n=n), budget_s=400 if tier == "quick" else 2400, obligation="H1-value-histories"))
+    # shaped secrets: hash-like values with symbolic bodies ($9$ values that do not decode included)
+    for prefix, ns in (("$9$", (2, 4) if tier == "quick" else (2, 4, 5)), ("$1$a$", (2,)), ("$6$", (2,))):
+        for part in ([0, 1], [0, 0], [0, 1, 0]):
+            for n in ns:
+                if tier == "quick" and n >= 4 and len(part) > 2:
+                    continue
+                out.append(Item("C08", "value_history", dict(part=list(part), enc=[0] * len(part), n=n, prefix=prefix), budget_s=400 if tier == "quick" else 2400, obligation="H1-value-histories-shaped"))
     fs, hv, st = c07._forms()
     base = {}
     for idx, f in enumerate(fs):
@@ -81,12 +88,15 @@ def _same(ex_, a, b):
     return not ex_.is_sat(z3.Not(e))
 
 
-def _blocks(ex_, part, n, tag="s"):
+def _blocks(ex_, part, n, tag="s", prefix=""):
     nb = max(part) + 1
     blocks = [[z3.BitVec("%s%d_%d" % (tag, b, i), 8) for i in range(n)] for b in range(nb)]
     for b in blocks:
         sec.in_alphabet(ex_, b)
-        sec.not_reserved(ex_, b)
+        if not prefix:
+            sec.not_reserved(ex_, b)
+    if prefix:
+        blocks = [[ord(c) for c in prefix] + b for b in blocks]
     for i in range(nb):
         for j in range(i + 1, nb):
             ex_.assume(z3.Not(SStr(list(blocks[i])).eq_expr(SStr(list(blocks[j])))))
@@ -94,7 +104,7 @@ def _blocks(ex_, part, n, tag="s"):
 
 
 def _witness(m, blocks):
-    return ["".join(chr(ev(m, c)) for c in b) for b in blocks]
+    return ["".join(chr(c) if isinstance(c, int) else chr(ev(m, c)) for c in b) for b in blocks]
 
 
 def value_history(item, res):
@@ -105,7 +115,20 @@ def value_history(item, res):
     bad_paths = []
 
     def h(ex_):
-        blocks = _blocks(ex_, part, n)
+        blocks = _blocks(ex_, part, n, prefix=item.params.get("prefix", ""))
+        if item.params.get("prefix") == "$9$":
+            # two $9$ strings that decrypt to the same plaintext are the SAME secret: blocks of different index must differ
+            # in plaintext too (decryption by the real juniper_decrypt, whose correctness is C18's subject)
+            plains = []
+            for b in blocks:
+                try:
+                    plains.append(SStr.of(F.jun.juniper_decrypt(SStr.mk(list(b)))))
+                except ValueError:
+                    plains.append(None)
+            for i in range(len(blocks)):
+                for j in range(i + 1, len(blocks)):
+                    if plains[i] is not None and plains[j] is not None and len(plains[i].cs) == len(plains[j].cs):
+                        ex_.assume(z3.Not(plains[i].eq_expr(plains[j])) if plains[i].cs else False)
         lookup = models.SymDict()
         cores = []
         raws = []
